@@ -199,3 +199,23 @@ Lemma hw_adopt_equal :
 Proof.
   intros h at0 base Hst Hown. apply (hw_dup_abs_equal write_allocator _ write_allocator_spec h at0 (write_start base) Hst). exact Hown.
 Qed.
+
+(* the image written does not depend on what the target held before: the blocks laid out, their addresses and their whole
+   content are a function of the tree and of the start address; every block is stored entirely (a calloc()ed block is
+   zero wherever the duplication stores nothing, whatever the mapping contained); everything else keeps its content *)
+Lemma hw_image_independent t base (h h' : heap) :
+  model_wf t = true ->
+  let r := dup_run ksize write_allocator t h (write_start base) in
+  let r' := dup_run ksize write_allocator t h' (write_start base) in
+  fst (fst r) = fst (fst r') /\ snd r = snd r' /\
+  (forall a, In a (addrs (fst (fst r))) -> snd (fst r) a = snd (fst r') a /\ exists b, snd (fst r) a = Some b /\ In (a, b) (nodes (fst (fst r)))) /\
+  (forall a, ~ In a (addrs (fst (fst r))) -> snd (fst r) a = h a /\ snd (fst r') a = h' a).
+Proof.
+  intro W. unfold dup_run. destruct (assign ksize write_allocator t (write_start base)) as [at1 s1] eqn:E. simpl.
+  assert (ND : NoDup (addrs at1)).
+  { pose proof (assign_fresh ksize write_allocator _ write_allocator_spec t _ _ _ W E) as (_ & _ & ND). exact ND. }
+  split; [reflexivity|split; [reflexivity|split]].
+  - intros a Ha. unfold addrs in Ha. apply in_map_iff in Ha. destruct Ha as ([a0 b] & Ea & Hin). simpl in Ea. subst a0.
+    rewrite (write_nodes_in _ h a b ND Hin), (write_nodes_in _ h' a b ND Hin). split; [reflexivity|]. exists b. auto.
+  - intros a Ha. split; apply write_nodes_other; exact Ha.
+Qed.
